@@ -118,7 +118,33 @@ static std::vector<Prog> programs() {
     return hx(hashVec(t, 7));
   });
   // ---- scale L: production thresholds
-  add("L: Sphere(1,160) - Sphere(1,160).Translate", true, [] { return meshHash(M::Sphere(1, 160) - M::Sphere(1, 160).Translate({0.4, 0.3, 0.2})); });
+  // > 1e5 halfedges in the result: reaches the literal gates of edge_op.cpp (FlagStore::run_par, nbEdges > 1e4)
+  add("L: Sphere(1,256) - Sphere(1,256).Translate", true, [] { return meshHash(M::Sphere(1, 256) - M::Sphere(1, 256).Translate({0.4, 0.3, 0.2})); });
+  add("L: Cube.Refine(64) - rotated copy", true, [] {
+    M c = M::Cube({1, 1, 1}, true).Refine(64);
+    return meshHash(c - c.Rotate(10, 20, 30).Translate({0.3, 0.2, 0.1}));
+  });
+  // pinched vertices above the parallel threshold of SplitPinchedVerts: 3000 bow-ties (two tetrahedra sharing an apex)
+  add("L: import 3000 bow-ties", true, [] {
+    MeshGL64 g;
+    g.numProp = 3;
+    auto vert = [&](double x, double y, double z) {
+      g.vertProperties.insert(g.vertProperties.end(), {x, y, z});
+      return (uint64_t)(g.vertProperties.size() / 3 - 1);
+    };
+    auto tet = [&](uint64_t a, uint64_t b, uint64_t c2, uint64_t d) {
+      for (uint64_t i : {a, c2, b, a, b, d, b, c2, d, c2, a, d}) g.triVerts.push_back(i);
+    };
+    for (int k = 0; k < 3000; ++k) {
+      double ox = 3.0 * (k % 60), oy = 3.0 * (k / 60);
+      uint64_t apex = vert(ox, oy, 0);
+      uint64_t a = vert(ox + 1, oy, 1), b = vert(ox, oy + 1, 1), c2 = vert(ox - 1, oy - 1, 1.2);
+      tet(a, b, c2, apex);
+      uint64_t d = vert(ox + 1, oy, -1), e = vert(ox, oy + 1, -1), f = vert(ox - 1, oy - 1, -1.2);
+      tet(e, d, f, apex);
+    }
+    return meshHash(M(g));
+  });
   add("L: LevelSet 60^3", true, [] {
     return meshHash(M::LevelSet([](vec3 p) { return 1.0 - la::length(p) + 0.1 * std::sin(7 * p.x); }, Box(vec3(-1.3, -1.3, -1.3), vec3(1.3, 1.3, 1.3)), 0.04));
   });
